@@ -103,6 +103,7 @@ def cases():
         add("snapshot_above_ensure_ok/{}".format(kind), {"S": "icontract.snapshot(lambda x: x)", "E": "icontract.ensure(lambda: cond_true())"}, kind, p1, ["S", "E"], a1,
             ("ok",), "control")
         add("snapshot_unnamed_two_args/{}".format(kind), {"S": "icontract.snapshot(lambda x, y: x)"}, kind, p1, ["S"], a1, ("create", "ValueError"), "snapshot_name")
+        add("snapshot_unnamed_two_args_one_defaulted/{}".format(kind), {"S": "icontract.snapshot(lambda x, n=2: x)"}, kind, p1, ["S"], a1, ("create", "ValueError"), "snapshot_name")
         add("snapshot_unnamed_no_args/{}".format(kind), {"S": "icontract.snapshot(lambda: 1)"}, kind, p1, ["S"], a1, ("create", "ValueError"), "snapshot_name")
     # 7. invalid error kinds x the three decorators (decorator creation)
     for deco in ("require", "ensure", "invariant"):
